@@ -7,6 +7,7 @@
 From Coq Require Import String.
 From Coq Require Import ZArith List Bool.
 From BV Require Import Lib.PyVal Gen.K_einfo Model.EInfo Proofs.EInfoProofs.
+From BV Require Import Model.EInfoSeq Proofs.EInfoSeqProofs.
 Import ListNotations.
 Open Scope Z_scope.
 
@@ -346,6 +347,90 @@ Theorem C12_namespace_value_reported_as_encoding_error :
 Proof. exact ns_unpicklable_reported_as_encoding_error. Qed.
 Print Assumptions C12_namespace_value_reported_as_encoding_error.
 
+(* ---------------- histories: the k-th record of a process describes the k-th failure -------- *)
+
+(* A worker process records MANY failures, one after the other.  Model/EInfoSeq.v: a [failure] is
+   what the interpreter hands to ExceptionInfo, its traceback given as [cnode]s -- (co_filename, co_name,
+   tb_lineno) plus co_firstlineno, f_lineno, tb_lasti and the co_positions() entry of the failing
+   instruction, i.e. everything the traceback module formats line and columns from --; [records_from m
+   hist fs] runs the constructor over fs, handing it each time the list [hist] of everything recorded
+   before (the most a constructor could have kept from earlier calls).
+
+   HONEST LABEL: the first three theorems are true BY CONSTRUCTION of the model -- its constructor
+   ([EInfoSeq.build]) receives the history and ignores it.  What makes them statements about einfo.py:
+   (a) C12_code_copy_reads_own_code_object below (the constructors as translated on this run read only
+   their parameter), (b) the STRUCTURAL theorem C12_code_standins_keep_no_state (no class-level
+   container, no statement through which a constructor could keep something), and (c) the `seq`
+   correspondence cases: histories of failures through DIFFERENT code objects with equal (co_filename,
+   co_name, co_firstlineno), each record compared node by node with the live traceback of its own
+   failure (Model.EInfoSeq.check_scase, monitor code 9 = C12:record-describes-another-code-object). *)
+Theorem C12_history_independent : forall m hist hist' before f after,
+    records_from m hist (before ++ f :: after) = records_from m hist' (before ++ f :: after) /\
+    records m (before ++ f :: after) = map (record m) (before ++ f :: after) /\
+    nth_error (records m (before ++ f :: after)) (length before) = Some (record m f).
+Proof.
+  intros m hist hist' before f after.
+  split; [apply history_independent|]. split; [apply records_map|apply record_after_history].
+Qed.
+Print Assumptions C12_history_independent.
+
+(* building the record of B after the record of A gives the same record of B as building B first *)
+Theorem C12_record_order_irrelevant : forall m a b,
+    nth_error (records m [a; b]) 1 = Some (record m b) /\
+    nth_error (records m [b; a]) 0 = Some (record m b).
+Proof. exact record_order_irrelevant. Qed.
+Print Assumptions C12_record_order_irrelevant.
+
+(* ... and what that record is: type, exception and text of THAT failure; the chain of the depth theorems
+   over that failure's traceback; and for every copied node the first line, frame line, instruction
+   offset and position of that failure's own node *)
+Theorem C12_record_describes_its_failure : forall m f,
+    -1 <= m -> fl_tb f <> [] ->
+    exists e,
+      record m f = Some (e, firstn (Z.to_nat (m + 2)) (fl_tb f)) /\
+      ei_type e = fl_type f /\ ei_exc e = EWT (fl_exc f) (fl_text f) /\ ei_text e = fl_text f /\
+      ei_tb e = map cn_fr (firstn (Z.to_nat (m + 2)) (fl_tb f)) ++
+                (if Z.of_nat (length (fl_tb f)) >? m + 2 then [marker] else []).
+Proof. exact record_describes_failure. Qed.
+Print Assumptions C12_record_describes_its_failure.
+
+(* About the code as translated on this run.  The reads of the three constructors (K_einfo.tb_reads /
+   frame_reads / code_reads), executed on a node: tb_frame is self.Frame(tb.tb_frame), f_code is
+   self.Code(frame.f_code) -- a copy made in this very call from the node's own frame / code object --,
+   and tb_lineno, tb_lasti, f_lineno, co_filename, co_name, co_firstlineno are the attributes of the same
+   name of the constructor's parameter, _co_positions is list(code.co_positions()): every node is copied
+   verbatim, for every node, and a sequence of tracebacks is copied traceback by traceback.  (The data
+   language of the translator can only express reads of the parameter and literals: `self._codes[key]`
+   is a translator error, and the change of seeded/C12-4 makes K_einfo fail to generate.) *)
+Theorem C12_code_copy_reads_own_code_object :
+    (forall c, gen_copy_cnode c = Some c) /\
+    (forall tbs, gen_records_nodes tbs = map (fun tb => Some tb) tbs).
+Proof. split; [exact gen_copy_cnode_eq|exact gen_records_nodes_eq]. Qed.
+Print Assumptions C12_code_copy_reads_own_code_object.
+
+(* STRUCTURAL (a fact about the syntax of billiard/einfo.py extracted by translate/kernels/einfo.py on
+   this run, decided here by computation; it is not a semantic theorem about Python):
+   - every class-level binding of _Code, _Frame, _Object, _Truncated, Traceback, RemoteTraceback,
+     ExceptionWithTraceback, ExceptionInfo is a method, an immutable literal or a reference to another
+     name -- no dict / list / set display, comprehension or call result shared by all constructor calls;
+   - no constructor (__init__) of these classes has a global / nonlocal statement, a default argument
+     that is not an immutable literal or a name, a nested function, or a store into an attribute / item
+     of anything but `self` or a local bound to a fresh display in the same call;
+   - by global name the constructors reach modules, classes, functions, builtins and plain values
+     (DEFAULT_MAX_FRAMES) only;
+   - the two class-level references the copy goes through are Traceback.Frame = _Frame and
+     _Frame.Code = _Code. *)
+Theorem C12_code_standins_keep_no_state :
+  no_class_state K_einfo.class_bindings = true /\
+  K_einfo.ctor_state_leaks = [] /\
+  ctor_globals_ok K_einfo.ctor_globals = true /\
+  forallb (has_class K_einfo.class_bindings)
+          (map s2l ["_Code"; "_Frame"; "_Truncated"; "Traceback"; "ExceptionInfo"]%string) = true /\
+  class_ref K_einfo.class_bindings (s2l "Traceback") n_Frame = Some (s2l "_Frame") /\
+  class_ref K_einfo.class_bindings (s2l "_Frame") n_Code = Some (s2l "_Code").
+Proof. repeat split; vm_compute; reflexivity. Qed.
+Print Assumptions C12_code_standins_keep_no_state.
+
 (* ---------------- the worker's encoding-error path ---------------- *)
 
 Theorem C12_encoding_error : forall mf env n job i o ptb ptext ok p r,
@@ -493,3 +578,18 @@ Example C12_record_total_witness :
               [(k_hide, GOther (s2l "True"))];
         mk_sf (lf_fr execd) [(k_file, GStr s_main); (k_name, GNone); (k_loader, GNone)] []].
 Proof. cbv zeta. split; [discriminate|vm_compute; reflexivity]. Qed.
+
+(* two failures of one process through DIFFERENT code objects with the same (file, name, first line):
+   `task` compiled twice under "<generated>", raising on line 2 and on line 9.  Each record names its own
+   raise line and position, in either order. *)
+Example C12_history_witness :
+  let drv := mk_cn (mk_fr (s2l "driver.py") (s2l "run") 40) 30 (-3) 88 [40; 40; 8; 17] in
+  let short := mk_fail (CPlain 1) (mk_exc (CPlain 1) [AStr (s2l "short")] [])
+                       [drv; mk_cn (mk_fr (s2l "<generated>") (s2l "task") 2) 1 2 6 [2; 2; 4; 27]] 0 in
+  let long := mk_fail (CPlain 2) (mk_exc (CPlain 2) [AStr (s2l "long"); AInt 7] [])
+                      [drv; mk_cn (mk_fr (s2l "<generated>") (s2l "task") 9) 1 9 196 [9; 9; 4; 31]] 1 in
+  map (option_map snd) (records 125 [short; long]) = [Some (fl_tb short); Some (fl_tb long)] /\
+  map (option_map snd) (records 125 [long; short]) = [Some (fl_tb long); Some (fl_tb short)] /\
+  map (option_map (fun r => ei_tb (fst r))) (records 125 [short; long]) =
+    [Some (map cn_fr (fl_tb short)); Some (map cn_fr (fl_tb long))].
+Proof. vm_compute. repeat split; reflexivity. Qed.
